@@ -143,6 +143,10 @@ type PersistentHybridIndex struct {
 
 	// State
 	closed bool
+	// ops counts the public operations that were admitted before Close; Close
+	// waits for them before its final flush, so that none of them can still be
+	// writing to the directory once the lock has been released.
+	ops sync.WaitGroup
 }
 
 // Compile-time check to ensure PersistentHybridIndex implements HybridSearchIndex
@@ -220,6 +224,22 @@ func OpenPersistentHybridIndex(config *StorageConfig) (*PersistentHybridIndex, e
 	return storage, nil
 }
 
+// beginOp admits one public operation, or refuses it if the storage is closed.
+// Every admitted operation must call s.ops.Done() when it returns. Admission
+// happens under the read lock and Close sets the closed flag under the write
+// lock, so an operation is either admitted before Close (and waited for) or
+// refused.
+func (s *PersistentHybridIndex) beginOp() error {
+	s.mu.RLock()
+	defer s.mu.RUnlock()
+
+	if s.closed {
+		return fmt.Errorf("storage is closed")
+	}
+	s.ops.Add(1)
+	return nil
+}
+
 // Add adds a document to the index.
 // The document is written to the active memtable in memory.
 //
@@ -232,12 +252,10 @@ func OpenPersistentHybridIndex(config *StorageConfig) (*PersistentHybridIndex, e
 //   - uint32: Generated document ID
 //   - error: Error if add fails
 func (s *PersistentHybridIndex) Add(vector []float32, text string, metadata map[string]interface{}) (uint32, error) {
-	s.mu.RLock()
-	if s.closed {
-		s.mu.RUnlock()
-		return 0, fmt.Errorf("storage is closed")
+	if err := s.beginOp(); err != nil {
+		return 0, err
 	}
-	s.mu.RUnlock()
+	defer s.ops.Done()
 
 	id, err := s.memtableQueue.add(vector, text, metadata)
 	if err != nil {
@@ -252,12 +270,10 @@ func (s *PersistentHybridIndex) Add(vector []float32, text string, metadata map[
 
 // AddWithID adds a document with a specific ID to the index.
 func (s *PersistentHybridIndex) AddWithID(id uint32, vector []float32, text string, metadata map[string]interface{}) error {
-	s.mu.RLock()
-	if s.closed {
-		s.mu.RUnlock()
-		return fmt.Errorf("storage is closed")
+	if err := s.beginOp(); err != nil {
+		return err
 	}
-	s.mu.RUnlock()
+	defer s.ops.Done()
 
 	if err := s.memtableQueue.addWithID(id, vector, text, metadata); err != nil {
 		return err
@@ -277,12 +293,10 @@ func (s *PersistentHybridIndex) AddWithID(id uint32, vector []float32, text stri
 // Returns:
 //   - error: Error if removal fails
 func (s *PersistentHybridIndex) Remove(id uint32) error {
-	s.mu.RLock()
-	if s.closed {
-		s.mu.RUnlock()
-		return fmt.Errorf("storage is closed")
+	if err := s.beginOp(); err != nil {
+		return err
 	}
-	s.mu.RUnlock()
+	defer s.ops.Done()
 
 	// Remove from active memtable
 	// Note: Documents in frozen memtables and segments cannot be removed
@@ -327,12 +341,10 @@ func (s *PersistentHybridIndex) NewSearch() HybridSearch {
 // Returns:
 //   - error: Error if training fails
 func (s *PersistentHybridIndex) Train(vectors [][]float32) error {
-	s.mu.RLock()
-	if s.closed {
-		s.mu.RUnlock()
-		return fmt.Errorf("storage is closed")
+	if err := s.beginOp(); err != nil {
+		return err
 	}
-	s.mu.RUnlock()
+	defer s.ops.Done()
 
 	if s.config.VectorIndexTemplate == nil {
 		return fmt.Errorf("no vector index configured")
@@ -500,12 +512,10 @@ func (s *persistentHybridSearch) WithFusionKind(kind FusionKind) HybridSearch {
 // 3. Merge and deduplicate results
 // 4. Sort by score and return top-k
 func (s *persistentHybridSearch) Execute() ([]HybridSearchResult, error) {
-	s.storage.mu.RLock()
-	if s.storage.closed {
-		s.storage.mu.RUnlock()
-		return nil, fmt.Errorf("storage is closed")
+	if err := s.storage.beginOp(); err != nil {
+		return nil, err
 	}
-	s.storage.mu.RUnlock()
+	defer s.storage.ops.Done()
 
 	// Collect all results
 	var allResults []HybridSearchResult
@@ -671,12 +681,10 @@ func (s *PersistentHybridIndex) maybeScheduleFlush() {
 // Returns:
 //   - error: Error if flush fails
 func (s *PersistentHybridIndex) Flush() error {
-	s.mu.RLock()
-	if s.closed {
-		s.mu.RUnlock()
-		return fmt.Errorf("storage is closed")
+	if err := s.beginOp(); err != nil {
+		return err
 	}
-	s.mu.RUnlock()
+	defer s.ops.Done()
 
 	// Freeze the active memtable so that everything added so far is persisted,
 	// not only the memtables that happened to fill up.
@@ -895,6 +903,9 @@ func (s *PersistentHybridIndex) Close() error {
 	}
 	s.closed = true
 	s.mu.Unlock()
+
+	// Wait for the operations that were admitted before the flag was set
+	s.ops.Wait()
 
 	// Signal background workers to stop
 	close(s.closeChan)
